@@ -41,7 +41,8 @@ def _init_certs():
                                ('server_expired', 'expired', 'test.com', []), ('server_notyet', 'notyet', 'test.com', []),
                                ('client', 'ok', None, ['operator']), ('client_expired', 'expired', None, ['operator']),
                                ('client_notyet', 'notyet', None, ['operator']), ('client_otherrole', 'ok', None, ['viewer']),
-                               ('client_roleless', 'ok', 'client.example', []), ('client_tworoles', 'ok', None, ['operator', 'engineer'])]:
+                               ('client_roleless', 'ok', 'client.example', []), ('client_tworoles', 'ok', None, ['operator', 'engineer']),
+                               ('client_mixedrole', 'ok', None, ['Plant-Operator.v2'])]:
         _reg(f'ca2/{n}', f'{o}/ca2/{n}_cert.pem', f'{o}/ca2/{n}_key.pem', 'ca2', val, san, roles)
     # name handling (SAN-or-CN) and an intermediate authority
     _reg('ca2/server_cnonly', f'{o}/ca2/server_cnonly_cert.pem', f'{o}/ca2/server_cnonly_key.pem', 'ca2', 'ok', None, [], cn='test.com')
@@ -154,7 +155,7 @@ def grid(full):
         ('wrong-authority', 'repoCA', 'repo/server', 'ca2/client'), ('wrong-authority2', 'ca2', 'ca2/server', 'repo/client'),
         ('expired', 'ca2', 'ca2/server', 'ca2/client_expired'), ('not-yet-valid', 'ca2', 'ca2/server', 'ca2/client_notyet'),
         ('role-less', 'ca2', 'ca2/server', 'ca2/client_roleless'), ('other-role', 'ca2', 'ca2/server', 'ca2/client_otherrole'),
-        ('two-roles', 'ca2', 'ca2/server', 'ca2/client_tworoles'),
+        ('two-roles', 'ca2', 'ca2/server', 'ca2/client_tworoles'), ('mixed-case-role', 'ca2', 'ca2/server', 'ca2/client_mixedrole'),
         ('via-intermediate', 'ca2', 'ca2/server', 'ca2/client_viaint+chain'), ('missing-intermediate', 'ca2', 'ca2/server', 'ca2/client_viaint'),
     ]
     server_ss = [  # (label, configured peer cert, local, presented)
